@@ -175,7 +175,7 @@ def search_oob_counterexample(rec, seed):
 
 
 def run_ast_property(v, tier, seed, g, bit, tag, search, what, extra_pinned=(), level="proof",
-                     extra_assumptions=()):
+                     extra_assumptions=(), extra_run=None):
     cases = cases_for(tier, seed, extra_pinned)
     results, recs = astcheck.run(cases, tag)
     dist = astcheck.distribution(results, recs)
@@ -234,10 +234,12 @@ def run_ast_property(v, tier, seed, g, bit, tag, search, what, extra_pinned=(), 
             payload["broken_obligation"] = f"{bit} verdict of Check.v on kernel {rec['name']}"
             v.violation(f"{bit}:{rec['case']}:{rec['contract']['integral_type']}", f"{what}: checker rejects kernel {rec['name']} (case {rec['case']}, statement #{rec.get('fail_stmt')})",
                         payload, no_input=True)
+    extra_cov = extra_run(v, tier, seed) if extra_run else {}
     if not g["ok"] and not v.violations:
         v.violation("gate", "proof obligations no longer check: " + "; ".join(g["broken"]),
                     {"broken": g["broken"]}, no_input=True)
     cov = {
+        **extra_cov,
         "checker_cmd": f"./check {v.prop} --tier {tier}  (make theories; coqc props/{v.prop}.v; coqc gen/{tag}_*.v)",
         "trusted_base": TRUSTED + list(extra_assumptions),
         "programs": len(results),
